@@ -2,8 +2,8 @@
    values. Statements only; each is closed by `exact` of a lemma proved against
    the Gallina regenerated from /repo (Gen/Mathutil.v, Gen/Fee.v, Gen/CoinHours.v). *)
 From Sky Require Import Base.Uint Model.ArithSpec Gen.Mathutil Gen.Fee Gen.CoinHours
-  Gen.CoinLoops Gen.FeeTxn
-  Proofs.MathutilProofs Proofs.FeeProofs Proofs.CoinHoursProofs Proofs.CoinLoopsProofs.
+  Gen.CoinLoops Gen.FeeTxn Gen.CoinTruncate
+  Proofs.MathutilProofs Proofs.FeeProofs Proofs.CoinHoursProofs Proofs.CoinLoopsProofs Proofs.CoinTruncateProofs.
 Open Scope Z_scope.
 
 (* checked helpers: an error exactly when the mathematical result does not fit *)
@@ -140,6 +140,24 @@ Theorem C31_VerifyTransactionFee : forall outs f b, Forall (in_u 64) outs ->
 Proof. exact VerifyTransactionFee_spec. Qed.
 Print Assumptions C31_VerifyTransactionFee.
 
+(* coin.Transactions.TruncateBytesTo (Gen/CoinTruncate.v; an element of the list
+   is what txns[i].Size() returned: (size, error)): it keeps the LONGEST prefix
+   whose total size is <= the limit (sizes = sum over Z of the sizes), and
+   returns the first Size() error with no transactions *)
+Theorem C31_TruncateBytesTo : forall l size, in_u 32 size -> Forall size_ok l ->
+  exists n, (n <= List.length l)%nat /\
+    Transactions_TruncateBytesTo l size = Val (firstn n l, None) /\
+    sizes (firstn n l) <= size /\
+    ((n < List.length l)%nat -> size < sizes (firstn (S n) l)).
+Proof. exact TruncateBytesTo_spec. Qed.
+Print Assumptions C31_TruncateBytesTo.
+
+Theorem C31_TruncateBytesTo_size_error : forall pre s e r size, in_u 32 size -> Forall size_ok pre ->
+  sizes pre <= size ->
+  Transactions_TruncateBytesTo (pre ++ (s, Some e) :: r) size = Val ([], Some e).
+Proof. exact TruncateBytesTo_size_error. Qed.
+Print Assumptions C31_TruncateBytesTo_size_error.
+
 Example C31_loops_example :
   Transaction_OutputHours [5; 7; 9] = Val (21, None) /\
   Transaction_OutputHours [9223372036854775808; 9223372036854775808] = Val (0, Some "Transaction output hours overflow"%string) /\
@@ -147,6 +165,7 @@ Example C31_loops_example :
   VerifyTransactionCoinsSpending [3000000; 2000000] [4999999] = Val (Some "Transactions may not destroy coins"%string) /\
   VerifyTransactionHoursSpending 3600100 [(100, 2000000, 7)] [2007] = Val None /\
   VerifyTransactionHoursSpending 3600100 [(100, 2000000, 7)] [2008] = Val (Some "Insufficient coin hours"%string) /\
-  TransactionFee [1806] 3600100 [(100, 2000000, 7)] = Val (201, None).
+  TransactionFee [1806] 3600100 [(100, 2000000, 7)] = Val (201, None) /\
+  Transactions_TruncateBytesTo [(300, None); (400, None); (500, None)] 700 = Val ([(300, None); (400, None)], None).
 Proof. repeat split; vm_compute; reflexivity. Qed.
 Print Assumptions C31_loops_example.
